@@ -51,7 +51,7 @@ func main() {
 	runner.Main(runner.Config{
 		ID:    "C04",
 		Level: "model_checking",
-		Rule:  "bounded exhaustive enumeration. Builds: every ordered tuple of 1-3 files with sizes from {0,1,B-1,B,B+1,2B-1,2B,2B+1,3B} (B=64KiB, seeded pseudo-random content), the empty build, zero-filled files, and a slice with 40 one-byte files / symlinks (plain, dangling, not lexically clean, upwards, absolute destinations) / an empty directory. Sub-check context-reuse: one ValidatorContext first validates (wounds file / fail-fast / heal) a damaged copy, then the pristine build: the second verdict must be clean. Producers: stand-alone signing (ComputeSignature, and ComputeSignatureToWriter framed into a signature stream) and diff-time signing (WritePatch against an empty and against an identical old build). Compression of the stream: every registered setting on the extras slice, none/gzip-1/brotli-1 in rotation elsewhere. Sub-check 'slicing': for every size multiset and both diff-time producers, every read slicing of the source pool with at most 2 deviations (a deviation answers one Read call with 1 or 16383 bytes instead of the full 16KiB request, or reports io.EOF together with the last bytes of a file instead of on a further empty read), explored depth-first over a choice tape. Oracle: an independent re-computation (own weak checksum, crypto/md5, own block splitting over os.ReadFile) must equal ComputeSignature, pwr.ReadSignature of the stream and the harness' own decoding of the stream, hash for hash (position, weak, strong, short size); the container read back must equal the walked container; Validate with WoundsPath on the pristine build returns nil, writes no wound, HasWounds is false; AssertValid returns nil. Non-trivial = the build's reference signature contains a full block and a short or empty block (plain sub-checks) / the execution deviates inside a file of more than one block (slicing).",
+		Rule:  "bounded exhaustive enumeration. Builds: every ordered tuple of 1-3 files with sizes from {0,1,B-1,B,B+1,2B-1,2B,2B+1,3B} (B=64KiB, seeded pseudo-random content), the empty build, zero-filled files, a build with unusual names (paths differing only by case, prefixes of one another, spaces, dots, non-ASCII), and a slice with 40 one-byte files / symlinks (plain, dangling, not lexically clean, upwards, absolute destinations) / an empty directory. Sub-check context-reuse: one ValidatorContext first validates (wounds file / fail-fast / heal) a damaged copy, then the pristine build: the second verdict must be clean. Producers: stand-alone signing (ComputeSignature, and ComputeSignatureToWriter framed into a signature stream) and diff-time signing (WritePatch against an empty and against an identical old build). Compression of the stream: every registered setting on the extras slice, none/gzip-1/brotli-1 in rotation elsewhere. Sub-check 'slicing': for every size multiset and both diff-time producers, every read slicing of the source pool with at most 2 deviations (a deviation answers one Read call with 1 or 16383 bytes instead of the full 16KiB request, or reports io.EOF together with the last bytes of a file instead of on a further empty read), explored depth-first over a choice tape. Oracle: an independent re-computation (own weak checksum, crypto/md5, own block splitting over os.ReadFile) must equal ComputeSignature, pwr.ReadSignature of the stream and the harness' own decoding of the stream, hash for hash (position, weak, strong, short size); the container read back must equal the walked container; Validate with WoundsPath on the pristine build returns nil, writes no wound, HasWounds is false; AssertValid returns nil. Non-trivial = the build's reference signature contains a full block and a short or empty block (plain sub-checks) / the execution deviates inside a file of more than one block (slicing).",
 		Assumptions: []string{
 			"file contents are seeded pseudo-random (VERIF_SEED) or zeros; other byte values are not enumerated",
 			"stand-alone signature streams are framed by the check with wharf's own wire/CompressWire/ComputeSignatureToWriter (wharf has no single entry point for it; this is what its command-line front end does)",
@@ -161,6 +161,12 @@ func extras() []wh.Build {
 		wh.Build{wh.F("a", ""), wh.F("b", "Z.z/65535"), wh.F("c", "")},
 		// the same block in two files and twice in one file
 		wh.Build{wh.F("a", "A.A"), wh.F("b", "A.A/100")},
+		// unusual but legal names: paths that differ only by case, names that are prefixes of
+		// one another, spaces, dots, a leading dash, non-ASCII, a directory and a file that
+		// sort next to each other
+		wh.Build{wh.F("include/xt_MARK.h", "A.=upper"), wh.F("include/xt_mark.h", "B/100"), wh.F("Include/xt_mark.h", "=third"),
+			wh.F("a", "=1"), wh.F("a.b", "=2"), wh.F("a b", "=3"), wh.F("ab", "C/65535"), wh.F("a-", "=5"), wh.F("-a", "=6"),
+			wh.F("d/x", "=7"), wh.F("d.x", "=8"), wh.F("d x", ""), wh.F("\u00e9t\u00e9/na\u00efve", "D"), wh.F(".hidden", "=9"), wh.F("d/.keep", "")},
 	)
 	return out
 }
